@@ -380,15 +380,29 @@ func SCap(s *T) *T  { return sliceAcc("scap", 3, s) }
 
 var NilSlice = MkSlice(I(0), I(0), I(0), I(0))
 
-// Quantifiers. vars are Int-sorted.
+// Quantifiers. vars are Int-sorted unless written "name:Sort". Each pattern is one (single-term) trigger.
 func Forall(vars []string, body *T, pats ...*T) *T {
-	return quant("forall", vars, body, pats)
+	var ps []string
+	for _, p := range pats {
+		ps = append(ps, p.str)
+	}
+	return quant("forall", vars, body, ps)
 }
+
+// ForallMulti uses all given terms together as one multi-pattern.
+func ForallMulti(vars []string, body *T, pats []*T) *T {
+	var ps []string
+	for _, p := range pats {
+		ps = append(ps, p.str)
+	}
+	return quant("forall", vars, body, []string{strings.Join(ps, " ")})
+}
+
 func Exists(vars []string, body *T) *T {
 	return quant("exists", vars, body, nil)
 }
 
-func quant(q string, vars []string, body *T, pats []*T) *T {
+func quant(q string, vars []string, body *T, pats []string) *T {
 	if body == True || body == False {
 		return body
 	}
@@ -402,25 +416,21 @@ func quant(q string, vars []string, body *T, pats []*T) *T {
 		}
 	}
 	sb.WriteString(")")
-	b := body
+	b := body.str
 	if len(pats) > 0 {
 		var ps strings.Builder
 		ps.WriteString("(! ")
 		ps.WriteString(body.str)
 		for _, p := range pats {
 			ps.WriteString(" :pattern (")
-			ps.WriteString(p.str)
+			ps.WriteString(p)
 			ps.WriteString(")")
 		}
 		ps.WriteString(")")
-		b = mk(ps.String(), SBool)
+		b = ps.String()
 	}
-	// Opaque leaf carrying the text; children kept for traversal.
-	t := mk("("+q+" "+sb.String()+" "+b.str+")", SBool)
-	if len(t.A) == 0 && t.Op[0] == '(' {
-		t.A = nil
-	}
-	return t
+	// opaque leaf carrying the text
+	return mk("("+q+" "+sb.String()+" "+b+")", SBool)
 }
 
 // pow2 returns 2^k as a term.
